@@ -1,6 +1,6 @@
 (* Model/Decode.v — decoding whole models and parameters from the harness's JSON, and the   *)
 (* end-to-end entry points of the runner (specification side).                               *)
-From LCM Require Import Base.Prelude Base.Arr Base.Json Spec.Lang Spec.Bellman Spec.Layout Model.ParamsTemplate.
+From LCM Require Import Base.Prelude Base.Arr Base.Json Spec.Lang Spec.Bellman Spec.Layout Model.ParamsTemplate Model.UserModel.
 Local Open Scope string_scope.
 
 Fixpoint jexpr (fuel : nat) (j : json) : option expr :=
@@ -149,3 +149,20 @@ Definition run_layout_map (c : json) : option json :=
                      of_list (fun sg => JList [JStr (fst sg); of_nat (ilook (state_at m p t idx) (fst sg))]) (states m))
                    (indices (expected_shape m p t)))])
         (seq 0 (n_periods m))).
+
+(* ---- validation of raw specifications (C12) ---------------------------------------------------- *)
+Definition jrkey (j : json) : option rkey :=
+  match j with JStr s => Some (KStr s) | _ => Some KOther end.
+Definition jrdict (j : json) : option rdict :=
+  match j with
+  | JNull => Some None
+  | _ => do l <- jlist_of (fun e => match e with JList [k; v] => do k' <- jrkey k ;; do v' <- jbool v ;; Some (k', v') | _ => None end) j ;;
+         Some (Some l)
+  end.
+Definition run_validate_model (c : json) : option json :=
+  do n <- jfield_of jint "n_periods" c ;;
+  do f <- jfield_of jrdict "functions" c ;; do ch <- jfield_of jrdict "choices" c ;;
+  do st <- jfield_of jrdict "states" c ;;
+  Some (JBool (validate_model (mkRaw n f ch st))).
+Definition run_creation_checks (c : json) : option json :=
+  do m <- jfield_of jmodel "model" c ;; Some (JBool (creation_checks m)).
